@@ -216,6 +216,42 @@ func (r *Report) Write() {
 	}
 }
 
+// Finding is one oracle failure of one case.
+type Finding struct {
+	Key string // stable signature (no case-specific noise): used for known-finding matching
+	Msg string
+}
+
+// Case evaluates one case. run must build everything it needs from scratch (fresh world) so that it can
+// be repeated: a case that produces findings is re-executed twice more and only believed when all three
+// executions agree; otherwise it is reported under a FLAKY key, which makes the driver declare the check
+// broken instead of raising an alarm (DESIGN §2.5).
+func (r *Report) Case(desc interface{}, nontrivialKey string, run func() []Finding) {
+	r.Eval(nontrivialKey)
+	f := run()
+	if len(f) == 0 {
+		return
+	}
+	sig := func(fs []Finding) string {
+		var k []string
+		for _, x := range fs {
+			k = append(k, x.Key)
+		}
+		sort.Strings(k)
+		return strings.Join(k, "|")
+	}
+	s1 := sig(f)
+	for i := 0; i < 2; i++ {
+		if s2 := sig(run()); s2 != s1 {
+			r.Violate("FLAKY:"+s1, fmt.Sprintf("case %v: findings differ between executions: %q vs %q", desc, s1, s2), desc)
+			return
+		}
+	}
+	for _, x := range f {
+		r.Violate(x.Key, x.Msg, desc)
+	}
+}
+
 // ---------------------------------------------------------------------------------------------
 // E1: odometer enumeration.
 
@@ -262,14 +298,10 @@ type BFSOpts struct {
 // form and the enabled event labels; it is also where invariants are checked. Events are applied by
 // appending to the history.
 func BFS(r *Report, step func(hist []string) (canon string, events []string, stop bool), o BFSOpts) {
-	type node struct{ hist []string }
 	seen := map[string]struct{}{}
-	frontier := []node{{nil}}
 	c, ev, _ := step(nil)
 	seen[c] = struct{}{}
 	r.States = 1
-	first := map[string][]string{c: ev}
-	_ = first
 	depth := 0
 	dl := Deadline()
 	type pending struct {
@@ -277,7 +309,6 @@ func BFS(r *Report, step func(hist []string) (canon string, events []string, sto
 		events []string
 	}
 	cur := []pending{{nil, ev}}
-	_ = frontier
 	for len(cur) > 0 {
 		if o.MaxDepth > 0 && depth >= o.MaxDepth {
 			r.Capped(fmt.Sprintf("depth cap %d reached with %d frontier states", o.MaxDepth, len(cur)))
